@@ -270,3 +270,284 @@ Proof.
   all: try solve [ destruct (extract_fields _) as [pfs|e] eqn:EF; [|discriminate];
                    refine (walk_wf _ _ _ _ _ Hs H); apply h_merge_wf; eapply extract_fields_wf; exact EF ].
 Qed.
+
+Lemma apply_ops_wf : forall ops s s',
+  leaves_wf s -> apply_ops cfg_fixed s ops = Ok s' -> leaves_wf s'.
+Proof.
+  induction ops as [|o t IH]; intros s s' Hs H; simpl in H.
+  - inversion H; subst. exact Hs.
+  - destruct (parse_path (op_path o)) as [segs|]; [|discriminate]. unfold bind in H.
+    destruct (apply_op cfg_fixed s o segs) as [s1|e] eqn:E; [|discriminate].
+    eapply IH; [|exact H]. eapply apply_op_wf; [exact Hs|exact E].
+Qed.
+
+(* C13_success_wellformed: a reported success of the repaired code is the serialisation of a
+   skeleton whose leaves are all well-formed msgpack values; if moreover no container of the
+   result has 2^32 or more children and no key 2^32 or more bytes (the encoder's uint32
+   truncation), the output is one well-formed msgpack value. *)
+Theorem success_wellformed : forall body ops cd out,
+  apply_with_cond cfg_fixed body ops cd = Ok out ->
+  exists s', out = serialize s' /\ leaves_wf s' /\ (small s' -> WF out).
+Proof.
+  unfold apply_with_cond, bind. intros body ops cd out H.
+  destruct (parse body) as [s|e] eqn:P; [|discriminate].
+  destruct (match cd with Some x => eval_cond cfg_fixed s x | None => Ok tt end) as [u|e]; [|discriminate].
+  destruct (apply_ops cfg_fixed s ops) as [s'|e] eqn:A; [|discriminate].
+  inversion H; subst. exists s'. split; [reflexivity|].
+  assert (L : leaves_wf s') by (eapply apply_ops_wf; [eapply parse_leaves_wf; exact P|exact A]).
+  split; [exact L|]. intro Sm. apply serialize_WF. apply skel_ok_intro; assumption.
+Qed.
+
+Definition ex_body : bytes := [130; 161; 120; 1; 161; 110; 208; 127].   (* {x: 1, n: int8 127} *)
+Definition ex_set (p v : bytes) : op := {| op_kind := 0; op_path := p; op_value := v |}.
+
+(* the hypotheses are satisfiable, non-trivially *)
+Example success_wellformed_example :
+  apply_with_cond cfg_fixed ex_body [ex_set [121] [161; 97]] None
+  = Ok [131; 161; 120; 1; 161; 110; 208; 127; 161; 121; 161; 97].
+Proof. vm_compute. reflexivity. Qed.
+
+(* the code as found: SET x <0xc1> succeeds and the stored body is no longer msgpack *)
+Theorem success_wellformed_refuted_without_validation :
+  exists body ops out,
+    apply_with_cond cfg_orig body ops None = Ok out /\ valid_value body = true /\ valid_value out = false.
+Proof.
+  exists ex_body, [ex_set [120] [193]], [130; 161; 120; 193; 161; 110; 208; 127].
+  vm_compute. repeat split; reflexivity.
+Qed.
+
+(* and the repaired code rejects that value *)
+Example malformed_value_rejected :
+  apply_with_cond cfg_fixed ex_body [ex_set [120] [193]] None = Err EInvalid /\
+  apply_with_cond cfg_fixed ex_body [ex_set [120] [165; 97; 98]] None = Err EInvalid /\
+  apply_with_cond cfg_fixed ex_body [ex_set [120] [1; 2]] None = Err EInvalid.
+Proof. vm_compute. repeat split; reflexivity. Qed.
+
+(* ---- 2. atomicity ----------------------------------------------------------------------------- *)
+(* swamp.PatchFields: the stored body is replaced only when ApplyWithCondition succeeds *)
+Definition patch_fields (c : cfg) (stored : bytes) (ops : list op) (cd : option cond) : (N * bytes) :=
+  match apply_with_cond c stored ops cd with
+  | Ok out => (0, out)
+  | Err e => (err_code e, stored)
+  end.
+
+Theorem atomic_on_failure : forall c stored ops cd,
+  fst (patch_fields c stored ops cd) <> 0 -> snd (patch_fields c stored ops cd) = stored.
+Proof.
+  intros c stored ops cd. unfold patch_fields. destruct (apply_with_cond c stored ops cd); simpl; [congruence|reflexivity].
+Qed.
+
+(* a failing op anywhere in the list, or an unmet/failing condition, fails the whole patch,
+   whatever the earlier ops did *)
+Lemma apply_ops_app : forall c ops1 ops2 s,
+  apply_ops c s (ops1 ++ ops2) = (s1 <- apply_ops c s ops1 ;; apply_ops c s1 ops2).
+Proof.
+  induction ops1 as [|o t IH]; intros ops2 s; simpl; [reflexivity|].
+  destruct (parse_path (op_path o)); [|reflexivity]. unfold bind.
+  destruct (apply_op c s o l); [apply IH|reflexivity].
+Qed.
+
+Theorem failing_op_fails_patch : forall c body ops1 o ops2 cd s s1 e,
+  parse body = Ok s ->
+  apply_ops c s ops1 = Ok s1 ->
+  apply_ops c s1 [o] = Err e ->
+  exists e', apply_with_cond c body (ops1 ++ o :: ops2) cd = Err e'.
+Proof.
+  intros c body ops1 o ops2 cd s s1 e P A1 Ao. unfold apply_with_cond, bind. rewrite P.
+  destruct (match cd with Some x => eval_cond c s x | None => Ok tt end); [|eexists; reflexivity].
+  rewrite apply_ops_app. unfold bind. rewrite A1.
+  change (o :: ops2) with ([o] ++ ops2). rewrite apply_ops_app. unfold bind. rewrite Ao.
+  eexists; reflexivity.
+Qed.
+
+Theorem unmet_condition_fails_patch : forall c body ops cd s e,
+  parse body = Ok s -> eval_cond c s cd = Err e ->
+  apply_with_cond c body ops (Some cd) = Err e.
+Proof. intros c body ops cd s e P E. unfold apply_with_cond, bind. rewrite P, E. reflexivity. Qed.
+
+Example atomic_example :
+  patch_fields cfg_fixed ex_body [ex_set [121] [1]; ex_set [120; 46; 122] [2]] None = (4, ex_body).
+Proof. vm_compute. reflexivity. Qed.
+
+(* ---- 3. INC keeps the target's type; the wrap is stated ------------------------------------- *)
+Definition width_bits (code : N) : nat :=
+  if (code =? 204) || (code =? 208) then 8%nat
+  else if (code =? 205) || (code =? 209) then 16%nat
+  else if (code =? 206) || (code =? 210) then 32%nat
+  else 64%nat.
+
+(* a sized integer / float code is kept; a fixint target is widened to the 64-bit code of its class *)
+Definition inc_result_code (code : N) : N :=
+  if in_range 202 211 code then code
+  else if is_posfix code then 207
+  else 211.
+
+Lemma be_val_be8 : forall n, n < 18446744073709551616 -> be_val 0 (be8 n) = n.
+Proof. intros n H. unfold be8, be4. simpl. lia. Qed.
+
+Lemma be_val_1 : forall x, be_val 0 [x] = x.
+Proof. intro x. simpl. lia. Qed.
+
+Lemma be_val_be2' : forall n, n < 65536 -> be_val 0 (be2 n) = n.
+Proof. intros n H. unfold be2. simpl. lia. Qed.
+
+Lemma be_val_be4' : forall n, n < 4294967296 -> be_val 0 (be4 n) = n.
+Proof. intros n H. unfold be4. simpl. lia. Qed.
+
+Lemma z_mod_pow_lt : forall z b, z_mod_pow z b < 2 ^ N.of_nat b.
+Proof.
+  intros z b. unfold z_mod_pow.
+  assert (0 < 2 ^ Z.of_nat b)%Z by (apply Z.pow_pos_nonneg; lia).
+  pose proof (Z.mod_pos_bound z (2 ^ Z.of_nat b) H) as B.
+  apply N2Z.inj_lt. rewrite Z2N.id by lia. rewrite N2Z.inj_pow. rewrite nat_N_Z. simpl Z.of_N. lia.
+Qed.
+
+(* the int result: same code for int8/16/32/64, value = two's-complement wrap of the exact sum
+   at that width; fixint targets come back as int64 *)
+Theorem inc_int_type_and_wrap : forall code a b nb,
+  inc_bytes code (NInt a) (NInt b) = Ok nb ->
+  let rc := if in_range 208 210 code then code else 211 in
+  leaf_code nb = rc /\
+  read_numeric nb = Ok (NInt (signed (width_bits rc) (z_mod_pow (a + b) (width_bits rc)))).
+Proof.
+  intros code a b nb H. simpl in H. inversion H; subst; clear H. unfold enc_int, in_range.
+  destruct (code =? 208) eqn:E8; [apply N.eqb_eq in E8; subst; split; [reflexivity|] |].
+  { unfold read_numeric. change (num_class 208) with 1. change (is_negfix 208) with false. change (208 =? 208) with true.
+    cbv iota beta. unfold take. simpl length. simpl Nat.leb. cbv iota.
+    change (firstn 1 [z_mod_pow (a + b) 8]) with [z_mod_pow (a + b) 8]. rewrite be_val_1. reflexivity. }
+  destruct (code =? 209) eqn:E16; [apply N.eqb_eq in E16; subst; split; [reflexivity|] |].
+  { unfold read_numeric. change (num_class 209) with 1. change (is_negfix 209) with false.
+    change (209 =? 208) with false. change (209 =? 209) with true. cbv iota beta.
+    unfold take. unfold be2. simpl length. simpl Nat.leb. cbv iota.
+    match goal with |- context [firstn 2 ?l] => change (firstn 2 l) with (be2 (z_mod_pow (a + b) 16)) end.
+    rewrite be_val_be2' by apply (z_mod_pow_lt _ 16). reflexivity. }
+  destruct (code =? 210) eqn:E32; [apply N.eqb_eq in E32; subst; split; [reflexivity|] |].
+  { unfold read_numeric. change (num_class 210) with 1. change (is_negfix 210) with false.
+    change (210 =? 208) with false. change (210 =? 209) with false. change (210 =? 210) with true. cbv iota beta.
+    unfold take. unfold be4. simpl length. simpl Nat.leb. cbv iota.
+    match goal with |- context [firstn 4 ?l] => change (firstn 4 l) with (be4 (z_mod_pow (a + b) 32)) end.
+    rewrite be_val_be4' by apply (z_mod_pow_lt _ 32). reflexivity. }
+  assert (R : (if (208 <=? code) && (code <=? 210) then code else 211) = 211).
+  { destruct ((208 <=? code) && (code <=? 210)) eqn:R; [|reflexivity]. lia. }
+  rewrite R. split; [reflexivity|].
+  unfold read_numeric. change (num_class 211) with 1. change (is_negfix 211) with false.
+  change (211 =? 208) with false. change (211 =? 209) with false. change (211 =? 210) with false. cbv iota beta.
+  unfold take. unfold be8, be4. simpl length. simpl Nat.leb. cbv iota.
+  match goal with |- context [firstn 8 ?l] => change (firstn 8 l) with (be8 (z_mod_pow (a + b) 64)) end.
+  rewrite be_val_be8 by apply (z_mod_pow_lt _ 64). reflexivity.
+Qed.
+
+(* the uint result: same code for uint8/16/32/64, value = sum modulo 2^width; positive fixint
+   targets come back as uint64 *)
+Theorem inc_uint_type_and_wrap : forall code a b nb,
+  inc_bytes code (NUint a) (NUint b) = Ok nb ->
+  let rc := if in_range 204 206 code then code else 207 in
+  leaf_code nb = rc /\ read_numeric nb = Ok (NUint ((a + b) mod 2 ^ N.of_nat (width_bits rc))).
+Proof.
+  intros code a b nb H. simpl in H. inversion H; subst; clear H. unfold enc_uint, in_range.
+  destruct (code =? 204) eqn:E8; [apply N.eqb_eq in E8; subst; split; [reflexivity|] |].
+  { unfold read_numeric. change (num_class 204) with 2. change (is_posfix 204) with false. change (204 =? 204) with true.
+    cbv iota beta. unfold take. simpl length. simpl Nat.leb. cbv iota.
+    match goal with |- context [firstn 1 ?l] => change (firstn 1 l) with [(a + b) mod 256] end.
+    rewrite be_val_1. reflexivity. }
+  destruct (code =? 205) eqn:E16; [apply N.eqb_eq in E16; subst; split; [reflexivity|] |].
+  { unfold read_numeric. change (num_class 205) with 2. change (is_posfix 205) with false.
+    change (205 =? 204) with false. change (205 =? 205) with true. cbv iota beta.
+    unfold take. unfold be2. simpl length. simpl Nat.leb. cbv iota.
+    match goal with |- context [firstn 2 ?l] => change (firstn 2 l) with (be2 ((a + b) mod 65536)) end.
+    rewrite be_val_be2' by (apply N.mod_lt; lia). reflexivity. }
+  destruct (code =? 206) eqn:E32; [apply N.eqb_eq in E32; subst; split; [reflexivity|] |].
+  { unfold read_numeric. change (num_class 206) with 2. change (is_posfix 206) with false.
+    change (206 =? 204) with false. change (206 =? 205) with false. change (206 =? 206) with true. cbv iota beta.
+    unfold take. unfold be4. simpl length. simpl Nat.leb. cbv iota.
+    match goal with |- context [firstn 4 ?l] => change (firstn 4 l) with (be4 ((a + b) mod 4294967296)) end.
+    rewrite be_val_be4' by (apply N.mod_lt; lia). reflexivity. }
+  assert (R : (if (204 <=? code) && (code <=? 206) then code else 207) = 207).
+  { destruct ((204 <=? code) && (code <=? 206)) eqn:R; [|reflexivity]. lia. }
+  rewrite R. split; [reflexivity|].
+  unfold read_numeric. change (num_class 207) with 2. change (is_posfix 207) with false.
+  change (207 =? 204) with false. change (207 =? 205) with false. change (207 =? 206) with false. cbv iota beta.
+  unfold take. unfold be8, be4. simpl length. simpl Nat.leb. cbv iota.
+  match goal with |- context [firstn 8 ?l] => change (firstn 8 l) with (be8 ((a + b) mod 18446744073709551616)) end.
+  rewrite be_val_be8 by (apply N.mod_lt; lia). reflexivity.
+Qed.
+
+(* the float result keeps float32 / float64 *)
+Theorem inc_float_type : forall code a b nb,
+  inc_bytes code (NFloat a) (NFloat b) = Ok nb ->
+  leaf_code nb = (if code =? 202 then 202 else 203).
+Proof.
+  intros code a b nb H. simpl in H. inversion H; subst. unfold enc_float. destruct (code =? 202); reflexivity.
+Qed.
+
+(* the wrap is real: int8 127 + 1 = int8 -128, reported as success *)
+Example inc_int8_wraps :
+  apply_with_cond cfg_fixed ex_body [{| op_kind := 2; op_path := [110]; op_value := [208; 1] |}] None
+  = Ok [130; 161; 120; 1; 161; 110; 208; 128].
+Proof. vm_compute. reflexivity. Qed.
+
+(* "keeps the target's numeric type" does not hold for fixint targets: 0x01 + 1 = uint64 2 *)
+Theorem inc_keeps_code_refuted_for_fixint :
+  exists body ops out, apply_with_cond cfg_fixed body ops None = Ok out /\
+    body = [129; 161; 120; 1] /\ out = [129; 161; 120; 207; 0; 0; 0; 0; 0; 0; 0; 2].
+Proof.
+  exists [129; 161; 120; 1], [{| op_kind := 2; op_path := [120]; op_value := [1] |}],
+         [129; 161; 120; 207; 0; 0; 0; 0; 0; 0; 0; 2].
+  vm_compute. repeat split; reflexivity.
+Qed.
+
+(* ---- 4. comparisons follow numeric order; NaN equals nothing -------------------------------- *)
+Theorem compare_int_order : forall c a b x y, a <> [] -> b <> [] ->
+  read_numeric a = Ok (NInt x) -> read_numeric b = Ok (NInt y) ->
+  compare_leaf c a b = Ok (of_comparison (x ?= y)%Z).
+Proof.
+  intros c a b x y Ha Hb Ra Rb. unfold compare_leaf. destruct a; [congruence|]. destruct b; [congruence|].
+  rewrite Ra, Rb. reflexivity.
+Qed.
+
+Theorem compare_uint_order : forall c a b x y, a <> [] -> b <> [] ->
+  read_numeric a = Ok (NUint x) -> read_numeric b = Ok (NUint y) ->
+  compare_leaf c a b = Ok (of_comparison (x ?= y)).
+Proof.
+  intros c a b x y Ha Hb Ra Rb. unfold compare_leaf. destruct a; [congruence|]. destruct b; [congruence|].
+  rewrite Ra, Rb. reflexivity.
+Qed.
+
+(* floats: IEEE order (SFcompare) when neither is NaN; with a NaN operand the result is
+   "unordered" and only NOT_EQUAL is met *)
+Theorem compare_float_order : forall a b x y, a <> [] -> b <> [] ->
+  read_numeric a = Ok (NFloat x) -> read_numeric b = Ok (NFloat y) ->
+  compare_leaf cfg_fixed a b =
+    Ok (match SFcompare x y with Some r => of_comparison r | None => CUnord end) /\
+  (sf_is_nan x = true \/ sf_is_nan y = true -> compare_leaf cfg_fixed a b = Ok CUnord).
+Proof.
+  intros a b x y Ha Hb Ra Rb. unfold compare_leaf. destruct a; [congruence|]. destruct b; [congruence|].
+  rewrite Ra, Rb. simpl. unfold float_cmp, sf64_compare. split; [reflexivity|].
+  intros [N|N]; destruct x, y; simpl in N; try discriminate; reflexivity.
+Qed.
+
+Theorem unordered_only_not_equal : forall cop,
+  cond_met cop CUnord = Some true <-> cop = 1.
+Proof.
+  intro cop. split.
+  - destruct cop as [|p]; simpl; [discriminate|].
+    destruct p as [[[|p|]|[|p|]|]|[[|p|]|[|p|]|]|]; simpl; try discriminate; reflexivity.
+  - intro; subst. reflexivity.
+Qed.
+
+Definition nan64 : bytes := [203; 127; 248; 0; 0; 0; 0; 0; 0].
+Definition nan_body : bytes := [129; 161; 102] ++ nan64.          (* {f: NaN} *)
+Definition nan_cond (cop : N) : cond := {| cond_path := [102]; cond_op := cop; cond_threshold := nan64 |}.
+
+(* the code as found: NaN EQUAL NaN is met and NaN NOT_EQUAL NaN is not *)
+Theorem numeric_order_refuted_for_nan_before_fix :
+  apply_with_cond cfg_orig nan_body [] (Some (nan_cond 0)) = Ok nan_body /\
+  apply_with_cond cfg_orig nan_body [] (Some (nan_cond 1)) = Err ECondNotMet.
+Proof. vm_compute. split; reflexivity. Qed.
+
+Example nan_equals_nothing_after_fix :
+  apply_with_cond cfg_fixed nan_body [] (Some (nan_cond 0)) = Err ECondNotMet /\
+  apply_with_cond cfg_fixed nan_body [] (Some (nan_cond 1)) = Ok nan_body /\
+  apply_with_cond cfg_fixed nan_body [] (Some (nan_cond 3)) = Err ECondNotMet /\
+  apply_with_cond cfg_fixed nan_body [] (Some (nan_cond 5)) = Err ECondNotMet.
+Proof. vm_compute. repeat split; reflexivity. Qed.
